@@ -58,6 +58,10 @@ def shapes(tier):
         out.append({"family": "partition", "N": N, "n_batches": 2, "src": "idx", "pool": 1})
     out.append({"family": "history", "N": 2})
     out.append({"family": "history", "N": 3})
+    # helpers pickled to worker processes: (class, (data, prior, trend_M)) with the data themselves pickled
+    for tref in ("default", "explicit", "false"):
+        out.append({"family": "pickle", "nt": 2, "poly": 2, "noff": 0, "K": "default", "units": "plain", "P_unit": "day", "tref": tref, "rows": 1})
+    out.append({"family": "pickle", "nt": 2, "poly": 1, "noff": 1, "K": "default", "units": "sym", "P_unit": "day", "tref": "default", "rows": 1})
     return out
 
 
@@ -154,6 +158,75 @@ def _run_junk(shape, res, sink):
                 tm = red[1][2]
                 okr = isinstance(tm, symnp.SymArray) and tm.a.shape == pb["trend_M"].a.shape and all(a is b for a, b in zip(tm.a.flat, pb["trend_M"].a.flat))
             sink.check(path, "reduce_rebuilds_from_constructor_arguments", core.SB(z3.BoolVal(bool(okr))), site="CJokerHelper.__reduce__", describe=desc, structural_claim=True)
+        finally:
+            core.Ctx.cur = None
+    res["twin_ok"] = twin
+    return ex
+
+
+def _run_pickle(shape, res, sink):
+    """the helper a worker process receives -- rebuilt from __reduce__ with the data pickled by the protocol of the
+    RVData class as written -- holds the same numbers as the parent's helper, and evaluates the same kernel inputs"""
+    S = kernel.KSetup()
+
+    def harness():
+        S.reset()
+        pb = kernel.make_problem(S, shape)
+        rows = kernel.chunk_rows(1)
+        chunk = symnp.SymArray(symnp._obj([list(r) for r in rows]), symnp._F8)
+        h1 = S.Helper(pb["data"], pb["prior"], pb["trend_M"])
+        red = h1.__reduce__()
+        data2 = kernel.pickle_roundtrip(red[1][0])
+        h2 = red[0](data2, red[1][1], kernel.pickle_roundtrip(red[1][2]) if not isinstance(red[1][2], symnp.SymArray) else red[1][2].copy())
+        h1.batch_marginal_ln_likelihood(chunk)
+        k1 = [c for c in S.rec.calls if c[0] == "kepler"]
+        del S.rec.calls[:]
+        h2.batch_marginal_ln_likelihood(chunk)
+        k2 = [c for c in S.rec.calls if c[0] == "kepler"]
+        return pb, rows, h1, h2, data2, k1, k2
+    ex = core.Explorer(max_paths=100)
+    twin = False
+    for path in ex.paths(harness):
+        core.Ctx.cur = path.ctx
+        try:
+            r, _, _ = path.check_isolated(core.SB(z3.BoolVal(False)))
+            twin = twin or r == "sat"
+            if path.raised is not None:
+                sink.check(path, "pickle.no_exception", core.SB(z3.BoolVal(False)), site="pickle", describe=lambda m: {"raised": repr(path.raised)[:300], "generic": True})
+                continue
+            pb, rows, h1, h2, data2, k1, k2 = path.result
+            desc = c01.describe_factory(pb, rows, shape)
+            d1 = pb["data"]
+            cl = []
+
+            def same(a, b):
+                if isinstance(a, symnp.SymArray) or isinstance(b, symnp.SymArray):
+                    if not (isinstance(a, symnp.SymArray) and isinstance(b, symnp.SymArray)) or a.a.shape != b.a.shape:
+                        return [z3.BoolVal(False)]
+                    return [x for p_, q_ in zip(a.a.flat, b.a.flat) for x in same(p_, q_)]
+                if core.is_sym(a) or core.is_sym(b):
+                    return [L(a) == L(b)]
+                if isinstance(a, (int, float)) and isinstance(b, (int, float)):
+                    return [z3.BoolVal(a == b)]
+                return []
+            cl += same(d1._t_bmjd, data2._t_bmjd) + same(d1.rv.value, data2.rv.value) + same(d1.rv_err.value, data2.rv_err.value)
+            cl += same(d1._t_ref_bmjd, data2._t_ref_bmjd) + [z3.BoolVal((d1.t_ref is None) == (data2.t_ref is None)), d1.rv.unit.same_as(data2.rv.unit)]
+            sink.check(path, "pickle.data_roundtrip", core.SB(z3.And(cl)), site="RVData pickling", describe=desc, isolated=True)
+            cl = []
+            n_cmp = 0
+            for nm, v in vars(h1).items():
+                w_ = getattr(h2, nm, None)
+                if isinstance(v, (symnp.SymArray, core.SN, int, float)) and not isinstance(v, bool):
+                    if nm in ("A", "Ainv", "B", "Binv", "Atmp", "Btmp", "b", "a", "npar_work", "ntime_work", "npar_ipiv", "ntime_ipiv", "M_T", "s_ivar", "Lambda"):
+                        continue        # scratch written per sample (LAPACK results are fresh symbols per call)
+                    cl += same(v, w_)
+                    n_cmp += 1
+            cl.append(z3.BoolVal(n_cmp >= 5))
+            sink.check(path, "pickle.worker_helper_state", core.SB(z3.And(cl)), site="CJokerHelper.__reduce__", describe=desc, isolated=True)
+            cl = [z3.BoolVal(len(k1) == len(k2) and len(k1) >= 1)]
+            for a, b in zip(k1, k2):
+                cl += same(a[1], b[1]) + [L(a[i]) == L(b[i]) for i in range(6, 12)]
+            sink.check(path, "pickle.worker_kernel_inputs", core.SB(z3.And(cl)), site="worker", describe=desc, isolated=True)
         finally:
             core.Ctx.cur = None
     res["twin_ok"] = twin
@@ -288,7 +361,7 @@ def run_shape(shape, tier):
     res = new_result(shape)
     sink = VCSink(res, PROPERTY)
     fam = shape["family"]
-    ex = {"junk": _run_junk, "partition": _run_partition, "history": _run_history}[fam](shape, res, sink)
+    ex = {"junk": _run_junk, "partition": _run_partition, "history": _run_history, "pickle": _run_pickle}[fam](shape, res, sink)
     fill_explorer(res, ex)
     return res
 
@@ -348,6 +421,25 @@ def replay(cand):
                 got = np.asarray(jm.marginal_ln_likelihood(data, fn, n_batches=4))
                 if not np.allclose(got, ref, rtol=1e-11, atol=0):
                     bad.append("MultiPool(2), n_batches=4 differs from the serial in-memory values")
+        # helpers pickled to workers: every reference-epoch convention of the data (default, explicit, disabled)
+        import pickle
+        from astropy.time import Time
+        rvq, errq = data.rv, data.rv_err
+        for tag, tr in (("default", None), ("explicit", Time(55990.5, format="mjd", scale="tcb")), ("False", False)):
+            dm = tj.RVData(t, rvq, errq, t_ref=tr)
+            d2 = pickle.loads(pickle.dumps(dm))
+            if not (np.array_equal(d2._t_bmjd, dm._t_bmjd) and d2._t_ref_bmjd == dm._t_ref_bmjd and (d2.t_ref is None) == (dm.t_ref is None)
+                    and np.array_equal(d2.rv.value, dm.rv.value) and d2.rv.unit == dm.rv.unit and np.array_equal(d2.rv_err.value, dm.rv_err.value)):
+                bad.append("RVData(t_ref=%s) does not survive pickling (reference epoch %r -> %r)" % (tag, dm._t_ref_bmjd, d2._t_ref_bmjd))
+            hm = joker._make_joker_helper(dm)
+            packed, _ = lib.pack(units=hm.internal_units, names=hm.packed_order)
+            want = np.asarray(hm.batch_marginal_ln_likelihood(np.ascontiguousarray(packed)))
+            # (the prior holds a pymc model, which plain pickle refuses: rebuild as __reduce__ prescribes, the data pickled)
+            red = hm.__reduce__()
+            hw = red[0](pickle.loads(pickle.dumps(red[1][0])), red[1][1], red[1][2])
+            got = np.asarray(hw.batch_marginal_ln_likelihood(np.ascontiguousarray(packed)))
+            if not np.allclose(got, want, rtol=1e-11, atol=0):
+                bad.append("t_ref=%s: the helper a worker process unpickles gives other ln-likelihoods than the parent's (max diff %.3g)" % (tag, np.max(np.abs(got - want))))
         # index-array reads in a non-monotone order
         from thejoker.multiproc_helpers import marginal_ln_likelihood_helper
         idx = np.array([11, 3, 10, 0, 22, 5])
